@@ -73,7 +73,7 @@ def fromc(v):
 
 
 def is_tuple_like(v):
-    return isinstance(v, (tuple, NewTuple)) or getattr(v, "_vt_pytype", None) is tuple
+    return isinstance(v, (tuple, NewTuple)) or getattr(type(v), "_vt_pytype", None) is tuple
 
 
 def build(interp_globals):
